@@ -4,7 +4,8 @@
 \* abstract model itself keeps its promises (everything pending is eventually written in order).
 EXTENDS LogAbs, Json
 
-CONSTANTS NP, MaxOps, Emit
+CONSTANTS NP, MaxOps, Emit,
+          Rerun   \* bias the workload towards tracer operations that run again around level changes
 VARIABLES hist, cnt, done
 gvars == <<avars, hist, cnt, done>>
 
@@ -21,11 +22,20 @@ Ev(kind, p, origin, sev, rep, lines, a, b) ==
 GLog == \E p \in Pick(1..NP) : \E o \in Pick(Origins) : \E s \in Pick(1..6) : \E r \in Pick({1, 1, 1, 2, 4}) :
            /\ Log(p, o, s, Txt(p, 100 * (cnt + 1)), r)
            /\ hist' = Append(hist, Ev("log", p, o, s, r, <<>>, 0, 0))
-GTracer == \E p \in Pick(1..NP) : \E o \in Pick(Origins) : \E n \in Pick(0..3) :
-           \E ss \in Pick([1..n -> 1..6]) :
-           LET ls == [i \in 1..n |-> [sev |-> ss[i], txt |-> Txt(p, 100 * (cnt + 1) + i)]] IN
-           /\ TracerSubmit(p, o, ls)
-           /\ hist' = Append(hist, Ev("tracer", p, o, 0, 1, [i \in 1..n |-> ss[i]], 0, 0))
+\* a tracer: either fresh texts, or the previous tracer operation of this producer runs again ("the same code
+\* location handles the next request": same origin, texts and severities - with a level change in between the
+\* first run may have produced plain lines and the second a real trace whose main line is identical)
+PrevTr(p) == {i \in 1..Len(hist) : hist[i].kind = "tracer" /\ hist[i].p = p /\ Len(hist[i].lines) > 0}
+LinesOf(p, k, ss) == [i \in 1..Len(ss) |-> [sev |-> ss[i], txt |-> Txt(p, 100 * k + i)]]
+GTracer == \E p \in Pick(1..NP) : \E again \in Pick(IF Rerun THEN {TRUE} ELSE {FALSE, TRUE}) :
+           IF again /\ PrevTr(p) # {}
+           THEN LET i == CHOOSE x \in PrevTr(p) : \A y \in PrevTr(p) : y <= x
+                    o == hist[i] IN
+                /\ TracerSubmit(p, o.origin, LinesOf(p, o.k, o.lines))
+                /\ hist' = Append(hist, [o EXCEPT !.a = 1])
+           ELSE \E o \in Pick(Origins) : \E n \in Pick(0..3) : \E ss \in Pick([1..n -> 1..6]) :
+                /\ TracerSubmit(p, o, LinesOf(p, cnt + 1, ss))
+                /\ hist' = Append(hist, Ev("tracer", p, o, 0, 1, [i \in 1..n |-> ss[i]], 0, 0))
 GLevel == \E l \in Pick(1..6) : SetLevel(l) /\ hist' = Append(hist, Ev("setlevel", 0, "logx", l, 0, <<>>, 0, 0))
 GPkg == \E a \in Pick(0..6) : \E b \in Pick(0..6) :
            SetPkg(a, b) /\ hist' = Append(hist, Ev("setpkg", 0, "logx", 0, 0, <<>>, a, b))
@@ -38,8 +48,9 @@ GOut == /\ \E p \in 1..NP : pending[p] # <<>> /\
 
 GStep == /\ ~done /\ cnt < MaxOps /\ cnt' = cnt + 1 /\ done' = done
          /\ \E f \in Pick(1..12) :
-               CASE f <= 7 -> GLog [] f <= 9 -> GTracer [] f = 10 -> GLevel
-                 [] f = 11 -> GPkg [] OTHER -> GUnset
+               IF Rerun
+               THEN CASE f <= 1 -> GLog [] f <= 7 -> GTracer [] f <= 10 -> GLevel [] f = 11 -> GPkg [] OTHER -> GUnset
+               ELSE CASE f <= 7 -> GLog [] f <= 9 -> GTracer [] f = 10 -> GLevel [] f = 11 -> GPkg [] OTHER -> GUnset
 GWrite == ~Emit /\ ~done /\ GOut /\ UNCHANGED <<cnt, done>>
 GEmit == /\ ~done /\ cnt = MaxOps /\ done' = TRUE
          /\ (Emit => PrintT(<<"@@", ToJson([np |-> NP, ops |-> hist])>>))
@@ -47,7 +58,7 @@ GEmit == /\ ~done /\ cnt = MaxOps /\ done' = TRUE
 GenNext == GStep \/ GWrite \/ GEmit
 GenSpec == GenInit /\ [][GenNext]_gvars
 
-\* what is pending for a producer is always in submission order: text counters strictly increase
+\* (holds only for workloads without re-run tracer operations; kept for reference, not checked)
 Ordered == \A p \in 1..NP : \A i, j \in 1..Len(pending[p]) :
               i < j => pending[p][i].txt[2] <= pending[p][j].txt[2]
 OnlyEnabled == \A p \in 1..NP : \A i \in 1..Len(pending[p]) : pending[p][i].sev \in 1..6
